@@ -14,13 +14,13 @@
       step 3  rule_texts     := with_session(sid, rule_texts)              handler.rs:3933-3935
               -- yield "handler.session_query.before_snapshot"
       step 4  load the snapshot pointer; evaluate  rule_texts ++ query  on
-              snapshot.input_tuples with the session facts *appended* to the cloned relation vectors
-              (`cloned.extend(extra)`, no de-duplication)                  snapshot.rs:392-407
+              snapshot.input_tuples with the session facts added to the cloned relation vectors
+              *as a set* (`extend_as_set`: a session fact already in the relation, or repeated, is
+              skipped)                                                     snapshot.rs:79-96, 411-427
   Queries are restricted to the two forms the harness issues:
       scan r   :  ?r<r>(X)            — set semantics (final distinct)
       count    :  ?cnt(N)  with the session rule  cnt(count<X>) <- r0(X)   — the aggregate's input is the
-                  concatenated vector, so a session fact equal to a persistent fact is counted twice;
-                  without the rule `cnt` is an unknown relation and the answer is empty.
+                  isolated vector; without the rule `cnt` is an unknown relation and the answer is empty.
 -/
 import ILV.Model.Util
 namespace ILV.SStep
@@ -76,11 +76,18 @@ def dedup : List Tup → List Tup
   | [] => []
   | a :: l => if l.contains a then dedup l else a :: dedup l
 
+/-- `extend_as_set` (snapshot.rs:84): the session facts that are neither stored nor seen before, in order -/
+def addFresh (p : List Tup) (acc : List Tup) (x : Tup) : List Tup :=
+  if p.contains x || acc.contains x then acc else acc ++ [x]
+def freshOf (p f : List Tup) : List Tup := f.foldl (addFresh p) []
+/-- the isolated relation vector of a session query -/
+def isolated (p f : List Tup) : List Tup := p ++ freshOf p f
+
 /-- answer of a scan query over the isolated vector: set semantics -/
-def evalScan (p f : List Tup) : List Tup := dedup (p ++ f)
-/-- answer of the count query: the aggregate sees the concatenated vector -/
+def evalScan (p f : List Tup) : List Tup := dedup (isolated p f)
+/-- answer of the count query: the aggregate sees the isolated vector -/
 def evalCount (rules : Nat) (p f : List Tup) : List Tup :=
-  if rules = 0 then [] else if (p ++ f).isEmpty then [] else [(p ++ f).length]
+  if rules = 0 then [] else if (isolated p f).isEmpty then [] else [(isolated p f).length]
 
 def Sess.clean (s : Sess) (nrel : Nat) : Bool := s.rules == 0 && (List.range nrel).all (fun r => (s.facts r).isEmpty)
 
